@@ -695,34 +695,113 @@ fn case_body(rng: &mut Rng, sink: &mut Sink, lossless: bool, world: &mut Option<
         }
     }
     if saw_abort { sink.branch("case:abort"); }
-    // ---- cooperative suffix: the network eventually delivers what is retransmitted -----------------------
+    // ---- epilogue: adversarial rounds, then the cooperative suffix ---------------------------------------
+    // "The network eventually delivers what is retransmitted": every frame is in the end EITHER delivered and
+    // acknowledged OR declared lost for good (`dead`: never delivered or acknowledged afterwards) — a frame that
+    // was declared lost is not allowed to rescue the stream later unless the schedule explicitly chose a late
+    // acknowledgement for it.  Whatever the sender must retransmit it has to retransmit by itself.
     if rng.chance(1, 10) { sink.branch("case:no-suffix"); return; }
-    for i in 0..wd.halves.len() {
-        if !wd.halves[i].shutdown_called && !wd.halves[i].aborted { op_shutdown(wd, i, sink); }
+    let nh = wd.halves.len();
+    let mut dead: Vec<Vec<bool>> = (0..nh).map(|i| vec![false; wd.halves[i].emitted.len()]).collect();
+    let mut lostmark: Vec<Vec<bool>> = (0..nh).map(|i| vec![false; wd.halves[i].emitted.len()]).collect();
+    fn grow(v: &mut Vec<Vec<bool>>, wd: &World) {
+        for i in 0..v.len() { let n = wd.halves[i].emitted.len(); v[i].resize(n, false); }
     }
-    // frames that were never acknowledged are declared lost first (so that they are retransmitted)
-    for i in 0..wd.halves.len() {
+    // honest network: what was acknowledged had been delivered
+    for i in 0..nh {
         if wd.halves[i].aborted { continue; }
         for fi in 0..wd.halves[i].emitted.len() {
-            if !wd.halves[i].acked[fi] && !wd.halves[i].delivered[fi] { saw_loss = true; op_ack_or_lose(wd, i, fi, true, sink); }
+            if wd.halves[i].acked[fi] && !wd.halves[i].delivered[fi] { op_deliver(wd, i, fi, sink); }
         }
+    }
+    let adv_rounds = if lossless { 0 } else { rng.below(4) };
+    sink.branch(&format!("suffix:adv-rounds:{}", adv_rounds));
+    for _ in 0..adv_rounds {
+        for i in 0..nh {
+            if wd.halves[i].aborted { continue; }
+            for fi in 0..wd.halves[i].emitted.len() {
+                if wd.halves[i].acked[fi] || dead[i][fi] { continue; }
+                let r = rng.below(100);
+                if lostmark[i][fi] {
+                    // a frame declared lost earlier: the "lost" packet was only late (spurious loss) ...
+                    if r < 45 {
+                        sink.branch("suffix:late-ack-after-loss");
+                        if !wd.halves[i].delivered[fi] { op_deliver(wd, i, fi, sink); }
+                        op_ack_or_lose(wd, i, fi, false, sink);
+                    } else if r < 60 {
+                        // ... or it is declared lost once more
+                        sink.branch("suffix:lose-again");
+                        op_ack_or_lose(wd, i, fi, true, sink);
+                        if rng.chance(1, 2) { dead[i][fi] = true; }
+                    }
+                } else if r < 45 {
+                    saw_loss = true;
+                    lostmark[i][fi] = true;
+                    op_ack_or_lose(wd, i, fi, true, sink);
+                    if rng.chance(1, 2) { dead[i][fi] = true; sink.branch("suffix:lose-for-good"); } else { sink.branch("suffix:lose-spurious"); }
+                } else if r < 65 {
+                    sink.branch("suffix:deliver-ack");
+                    if !wd.halves[i].delivered[fi] { op_deliver(wd, i, fi, sink); }
+                    op_ack_or_lose(wd, i, fi, false, sink);
+                }
+            }
+        }
+        // the application may shut down between a transmission and its retransmission
+        for i in 0..nh {
+            if !wd.halves[i].shutdown_called && !wd.halves[i].aborted && rng.chance(1, 2) {
+                sink.branch("suffix:shutdown-before-retransmission");
+                op_shutdown(wd, i, sink);
+            }
+        }
+        let cap = if rng.chance(1, 2) { 1200 } else { gen_cap(rng).max(30) };
+        for ep in 0..2 {
+            let mut n = 0;
+            while n < 4000 && op_load(wd, ep, cap, sink) { n += 1; }
+        }
+        grow(&mut dead, wd);
+        grow(&mut lostmark, wd);
+    }
+    for i in 0..nh {
+        if !wd.halves[i].shutdown_called && !wd.halves[i].aborted { op_shutdown(wd, i, sink); }
     }
     let mut rounds = 0;
     loop {
         rounds += 1;
         let mut progress = false;
+        // the fate of every frame still in flight: lost for good (only in the first rounds, so that the suffix
+        // terminates) or delivered and acknowledged
+        for i in 0..nh {
+            if wd.halves[i].aborted { continue; }
+            let mut keep: Vec<usize> = vec![];
+            for fi in 0..wd.halves[i].emitted.len() {
+                if wd.halves[i].acked[fi] || dead[i][fi] { continue; }
+                if !lossless && rounds <= 3 && rng.chance(1, 3) {
+                    saw_loss = true;
+                    sink.branch(if wd.halves[i].emitted[fi].2 { "suffix:final-loss:fin-frame" } else { "suffix:final-loss" });
+                    dead[i][fi] = true;
+                    op_ack_or_lose(wd, i, fi, true, sink);
+                    progress = true;
+                } else {
+                    keep.push(fi);
+                }
+            }
+            // random delivery order
+            for k in (1..keep.len()).rev() { let j = rng.below(k as u64 + 1) as usize; keep.swap(k, j); }
+            for fi in &keep { if !wd.halves[i].delivered[*fi] { op_deliver(wd, i, *fi, sink); } }
+            for fi in &keep {
+                if lostmark[i][*fi] { sink.branch("suffix:late-ack-after-loss"); }
+                op_ack_or_lose(wd, i, *fi, false, sink);
+                progress = true;
+            }
+        }
         for ep in 0..2 {
             let mut n = 0;
             while n < 4000 && op_load(wd, ep, 1200, sink) { n += 1; progress = true; }
         }
-        for i in 0..wd.halves.len() {
+        grow(&mut dead, wd);
+        grow(&mut lostmark, wd);
+        for i in 0..nh {
             if wd.halves[i].aborted { continue; }
-            let mut order: Vec<usize> = (0..wd.halves[i].emitted.len()).filter(|k| !wd.halves[i].delivered[*k]).collect();
-            // random delivery order
-            for k in (1..order.len()).rev() { let j = rng.below(k as u64 + 1) as usize; order.swap(k, j); }
-            for fi in order { op_deliver(wd, i, fi, sink); progress = true; }
-            let un: Vec<usize> = (0..wd.halves[i].emitted.len()).filter(|k| !wd.halves[i].acked[*k]).collect();
-            for fi in un { op_ack_or_lose(wd, i, fi, false, sink); progress = true; }
             loop {
                 let (n, eof, pending) = op_read(wd, i, 1000, sink);
                 if n > 0 { progress = true; }
@@ -739,17 +818,32 @@ fn case_body(rng: &mut Rng, sink: &mut Sink, lossless: bool, world: &mut Option<
         if !progress || rounds > 200 { break; }
     }
     // MONITOR (liveness on the real objects)
-    for i in 0..wd.halves.len() {
+    for i in 0..nh {
         if wd.halves[i].aborted { continue; }
         let sdone = op_shutdown(wd, i, sink);
         let fdone = op_flush(wd, i, sink);
         let h = &wd.halves[i];
+        // what the surviving (delivered and acknowledged) frames carry
+        let mut iv: Vec<(u64, u64)> = vec![];
+        let mut fin_alive = false;
+        for (fi, (off, d, f)) in h.emitted.iter().enumerate() {
+            if h.acked[fi] && h.delivered[fi] { iv.push((*off, *off + d.len() as u64)); fin_alive |= *f; }
+        }
+        iv.sort();
+        let mut at = 0u64;
+        for (a, b) in iv { if a > at { break; } at = at.max(b); }
+        if at < h.wbytes.len() as u64 {
+            sink.monitor_fail("lost_data_never_retransmitted", &format!("{}: bytes from offset {} (of {}) were only carried by frames that were lost; the sender has nothing more to send (state {})", h.key, at, h.wbytes.len(), h.sname()));
+        }
+        if !fin_alive {
+            sink.monitor_fail("lost_fin_never_retransmitted", &format!("{}: every frame that carried the FIN was lost and the sender has nothing more to send (state {})", h.key, h.sname()));
+        }
         if h.rbytes.len() != h.wbytes.len() {
             sink.monitor_fail("not_all_bytes_readable", &format!("{}: everything was retransmitted, delivered and acknowledged, but only {} of {} bytes were readable", h.key, h.rbytes.len(), h.wbytes.len()));
         }
-        if !h.eof { sink.monitor_fail("eof_never_seen", &format!("{}: all frames delivered but the reader never saw EOF", h.key)); }
-        if !sdone { sink.monitor_fail("shutdown_never_completes", &format!("{}: everything acknowledged but poll_shutdown is still pending (state {})", h.key, h.sname())); }
-        if !fdone { sink.monitor_fail("flush_never_completes", &format!("{}: everything acknowledged but poll_flush is still pending", h.key)); }
+        if !h.eof { sink.monitor_fail("eof_never_seen", &format!("{}: every surviving frame was delivered but the reader never saw EOF", h.key)); }
+        if !sdone { sink.monitor_fail("shutdown_never_completes", &format!("{}: every surviving frame was acknowledged and the sender has nothing more to send, but poll_shutdown is still pending (state {})", h.key, h.sname())); }
+        if !fdone { sink.monitor_fail("flush_never_completes", &format!("{}: every surviving frame was acknowledged and the sender has nothing more to send, but poll_flush is still pending", h.key)); }
         sink.branch("case:completed");
     }
     if saw_loss && (saw_dup || saw_reorder) { sink.nontrivial(); }
@@ -765,7 +859,7 @@ pub fn run(o: &Opts) {
         let lossless = i % 16 == 0;
         one_case(&mut rng, &mut sink, lossless);
     }
-    sink.finish(&o.stats, "random schedules on a real client-role + server-role DataStreams pair: 1-3 concurrent uni/bidi streams opened from either side, random writes (0..2600 bytes), shutdown, flush/ready polls, one-frame packet assembly with random capacity (0..65000), then delivery / duplication / reordering / dropping / late acknowledgement / loss declaration of any frame ever emitted, reads with random buffer sizes, MAX_STREAM_DATA delivery, cancel / stop / STOP_SENDING / RESET_STREAM / connection error; 9 of 10 cases end with a cooperative suffix (retransmit, deliver, ack, read everything) after which completion is demanded; every 16th case is lossless and in order; non-trivial = a loss was declared and a duplicate or out-of-order delivery happened; distinct by hash of the case transcript");
+    sink.finish(&o.stats, "random schedules on a real client-role + server-role DataStreams pair: 1-3 concurrent uni/bidi streams opened from either side, random writes (0..2600 bytes), shutdown, flush/ready polls, one-frame packet assembly with random capacity (0..65000), then delivery / duplication / reordering / dropping / late acknowledgement / loss declaration of any frame ever emitted, reads with random buffer sizes, MAX_STREAM_DATA delivery, cancel / stop / STOP_SENDING / RESET_STREAM / connection error; 9 of 10 cases end with 0-3 adversarial rounds (every frame in flight is declared lost spuriously / lost for good / acknowledged late after a loss / delivered and acknowledged / left alone, the application may shut down before the retransmissions are assembled, retransmissions with random capacity) and the cooperative suffix (every frame in flight is lost for good [first 3 rounds] or delivered and acknowledged, load until nothing, read everything, window updates; a frame lost for good is never delivered or acknowledged again) after which completion is demanded; every 16th case is lossless and in order; non-trivial = a loss was declared and a duplicate or out-of-order delivery happened; distinct by hash of the case transcript");
 }
 
 pub const RUNS: &[(&str, fn(&Opts))] = &[("C01", run)];
